@@ -930,6 +930,23 @@ func (ec *evalCtx) call(x *CCall) (TV, error) {
 				return TV{}, fmt.Errorf("typeOf needs an interface value")
 			}
 			return TV{T: ifTag(v.T), Tag: true, Ty: types.Typ[types.Int]}, nil
+		case "isFresh":
+			// the object was allocated by this function (not reachable from the entry state)
+			v, err := ec.eval(x.Args[0])
+			if err != nil {
+				return TV{}, err
+			}
+			c.sc.declFun("alloc_id", []Sort{SRef}, SInt)
+			var p Term
+			switch v.T.Sort {
+			case SSlice:
+				p = slPtr(v.T)
+			case SRef:
+				p = v.T
+			default:
+				return TV{}, fmt.Errorf("isFresh needs a pointer, map or slice")
+			}
+			return TV{T: mk(SBool, ">", mk(SInt, "alloc_id", p), Term{"0", SInt}), Ty: types.Typ[types.Bool]}, nil
 		case "isNilIface":
 			v, err := ec.eval(x.Args[0])
 			if err != nil {
